@@ -593,6 +593,71 @@ def oriented(cmp, wants_left):
     return cmp
 
 
+def rule_wave_patterns(chk, funcs):
+    """a loop-free solver that selects its result by the signs of its wave speeds and reports failure when no case applies: the cases must cover every sign pattern that
+    can occur with the left wave moving left and the right wave moving right - whatever the sign of the middle wave, *zero included* (a contact exactly at rest is what
+    identical or mirror-image states give) - and the two supersonic patterns.  The chain of tests is evaluated exactly on the sign patterns (tests compare with 0 only)"""
+    import itertools
+    n = 0
+    for nm, fn in sorted(funcs.items()):
+        chains = []
+        for top in [s_ for s_ in stripped(fn).body if isinstance(s_, ast.If)] if hasattr(stripped(fn), 'body') else []:
+            tests, cur = [], top
+            while True:
+                tests.append(cur.test)
+                if len(cur.orelse) == 1 and isinstance(cur.orelse[0], ast.If):
+                    cur = cur.orelse[0]
+                    continue
+                break
+            fails = any(isinstance(r, ast.Return) and isinstance(r.value, ast.Constant) and r.value.value not in (0, None) for b_ in cur.orelse for r in ast.walk(b_))
+            if len(tests) >= 3 and fails:
+                chains.append((top, tests))
+        for top, tests in chains:
+            names = []
+            okform = True
+            for t_ in tests:
+                for x in ast.walk(t_):
+                    if isinstance(x, ast.Name) and x.id not in names:
+                        names.append(x.id)
+                    if isinstance(x, ast.Constant) and not (isinstance(x.value, (int, float)) and x.value == 0):
+                        okform = False
+            if len(names) != 3 or not okform:
+                continue
+            n += 1
+            left, right = names[0], names[-1]
+            mid = [x for x in names if x not in (left, right)][0]
+            # the last test names the right wave
+            last_names = [x.id for x in ast.walk(tests[-1]) if isinstance(x, ast.Name)]
+            if last_names:
+                right = last_names[-1]
+                mid = [x for x in names if x not in (left, right)][0]
+            need = [dict(zip((left, mid, right), v)) for v in ((-1, -1, 1), (-1, 0, 1), (-1, 1, 1), (1, 1, 1), (-1, -1, -1))]
+            missed = []
+            for env in need:
+                hit = False
+                for t_ in tests:
+                    try:
+                        if eval(compile(ast.fix_missing_locations(ast.Expression(body=ast.parse(ast.unparse(t_), mode='eval').body)), '<wave>', 'eval'), {'__builtins__': {}}, dict(env)):
+                            hit = True
+                            break
+                    except Exception:
+                        hit = None
+                        break
+                if hit is None:
+                    missed = None
+                    break
+                if not hit:
+                    missed.append(env)
+            if missed is None:
+                chk.undecided('dispatch-table', nm + ':wave-patterns-covered', node=top, file=RS, func=nm, detail='wave-pattern tests not evaluable')
+                continue
+            chk.decide(not missed, 'dispatch-table', nm + ':wave-patterns-covered', node=top, file=RS, func=nm,
+                       detail_bad='no case of the wave-pattern selection applies when the signs of (%s, %s, %s) are %s: the solver reports failure and writes no result - with a contact '
+                                  'exactly at rest that is what identical (or mirror-image) left and right states give' % (left, mid, right, [tuple(e_[k_] for k_ in (left, mid, right)) for e_ in missed]),
+                       detail_ok='the five patterns with the outer waves apart or on one side are each selected by a case')
+    chk.floor('wave-pattern selections with a failure branch', n, 1)
+
+
 def rule_success(chk, funcs, names):
     """success (return 0) implies the convergence test passed: neither an empty nor an exhausted loop may report success"""
     for nm in names:
@@ -606,6 +671,14 @@ def rule_success(chk, funcs, names):
         if not okb:
             continue
         test = guards[0].test
+        # the iteration stops because a comparison came out TRUE, never because its negation came out false: every comparison with a NaN is false, so `if change > tol:
+        # go on; else: stop` stops - and reports success - on the first iterate that is not a number (a negative pressure under the square root)
+        in_body = any(breaks[0] is x for b_ in guards[0].body for x in ast.walk(b_))
+        negated = isinstance(test, ast.UnaryOp) and isinstance(test.op, ast.Not)
+        chk.decide(in_body and not negated, 'convergence-test', nm + ':stops-on-a-true-comparison', node=guards[0], file=RS, func=nm,
+                   detail_bad='the loop is left in the %s of `if %s`: with a NaN iterate that branch is taken although nothing has converged, and the result is returned as success' % (
+                       'else branch' if not in_body else 'body under a negation', compact(test)[:60]),
+                   detail_ok='break in the body of `if %s`' % compact(test)[:60])
         succ = [r for s in post for r in ast.walk(s) if isinstance(r, ast.Return) and isinstance(r.value, ast.Constant) and r.value.value == 0]
         if len(succ) != 1:
             chk.violated('success-implies-converged', nm + ':one-success-return', node=fn, file=RS, func=nm, detail='expected exactly one `return 0` after the loop')
@@ -752,6 +825,7 @@ def main(chk):
     if 'exact' in iterative:
         rule_newton(chk, funcs)
     rule_success(chk, funcs, iterative)
+    rule_wave_patterns(chk, funcs)
     chk.assume('ties in comparisons (x == 0 exactly) are ignored; rounding is not modelled; reciprocals are taken where the code takes them (non-zero denominators)')
     chk.assume('"finite" and "to the requested tolerance" as numbers are not decided: the check proves that success is reported only after the relative-change test passed '
                'on a Newton iterate whose derivative is exact')
